@@ -53,7 +53,7 @@ def run(tier, seed):
                    "first bytes followed by a well-formed login frame; clients: real frpc with and without trusted CA against TLS servers presenting 4 identities; non-trivial = captures + peers that are not an arbitrary byte + identities",
               driver_stats=stats)
     v.assumptions += ["'in clear' means the literal marker bytes (or, for websocket client frames, the unmasked bytes) occur in the capture; digests and ciphertext of markers are not searched for",
-                      "'interpreted' is observed as any answer to a well-formed Login (or other message) within 1.5 s",
+                      "'interpreted' is observed as any answer to a well-formed Login (or other message) within 4 s",
                       "OIDC authentication and the ssh tunnel gateway are not driven"]
     v.finish()
 
